@@ -432,6 +432,12 @@ pub fn hard_fault(rng: &mut Rng, shape: &[TraceLine]) -> Option<(PlanEntry, Stri
 /// Digest of an outcome for fingerprints (deterministic parts only).
 pub fn outcome_digest(fp: &mut Fnv, o: &Outcome) {
     fp.str(&o.status_label());
+    if o.panicked || o.timed_out || o.signal.is_some() {
+        // a panic message carries the OS thread id ("thread 'main' (8604) panicked"), and how much a dying
+        // process still wrote is not decided by the simulator: only status and site are part of the fingerprint
+        fp.str(&o.panic_site);
+        return;
+    }
     fp.bytes(&o.stdout).bytes(&[0]);
     fp.bytes(&o.stderr).bytes(&[0]);
     for t in &o.trace {
